@@ -51,6 +51,13 @@ def parseAtom : List String → Option Atom
 def parseCatch (s : String) : Catch :=
   if s == "any" then .any else if s == "std" then .std else .parse
 
+/-- `n` rule-level actions, each `id isBool vetoMod throwMod throwStd` -/
+def parseRuleActs : Nat → List String → List RuleAct
+  | 0, _ => []
+  | n + 1, k :: b :: v :: t :: s :: rest =>
+    { id := nat! k, isBool := b == "1", vetoMod := nat! v, throwMod := nat! t, throwStd := s == "1" } :: parseRuleActs n rest
+  | _, _ => []
+
 def parseKind : List String → Option Kind
   | "atom" :: rest => (parseAtom rest).map .atom
   | "seq" :: n :: rest => some (.seq ((rest.take (nat! n)).map nat!))
@@ -78,12 +85,15 @@ def parseKind : List String → Option Kind
   | ["disable", c] => some (.disable (nat! c))
   | ["action", f, c] => some (.action (nat! f) (nat! c))
   | ["state", d, c] => some (.state (d == "1") (nat! c))
+  | ["control", k, c] => some (.control (nat! k) (nat! c))
+  | "ifApply" :: c :: n :: rest => some (.ifApply (nat! c) (parseRuleActs (nat! n) rest))
+  | "applyR" :: n :: rest => some (.applyR (parseRuleActs (nat! n) rest))
   | _ => none
 
 def kindWords : List String :=
   ["atom", "seq", "sor", "starPartial", "partial", "plus", "at", "notAt", "until1", "until2", "rep", "repMinMax",
    "repOpt", "ifThenElse", "strict", "starStrict", "rematch", "must", "ifMust", "raise", "tcrf", "tcrn", "enable",
-   "disable", "action", "state"]
+   "disable", "action", "state", "control", "ifApply", "applyR"]
 
 def setNode (g : Array Node) (i : Nat) (nd : Node) : Array Node :=
   let g := if g.size ≤ i then g ++ Array.replicate (i + 1 - g.size) default else g
